@@ -388,6 +388,8 @@ def r09g(ctx):
 def run(ctx):
     r09g(ctx)
     r09a(ctx)
+    from ..pairing import e12
+    e12(ctx)          # ancestor sets of recursive builders are unwound on every exit
     r09e(ctx)
     r09f(ctx)
     r09b(ctx)
